@@ -612,7 +612,7 @@ class Check(PropertyCheck):
             elif part.startswith("qt:"): tok = "t" + self._hx(pwtext(part[3:]).strip())
             elif part.startswith("ck:"): ck = part[3:]
         m = st["method"] if st["method"] in METHODS else "other"
-        sfs = {None: "absent", "same-origin": "same-origin", "none": "none"}.get(st["sfs"], "other")
+        sfs = "absent" if st["sfs"] is None else "h" + hx(st["sfs"].encode())      # the raw header text: the model classifies it
         x = int(st["xsrf"] in ("ok-header", "ok-arg"))
         return f"hreq {st['route']} {m} {ck} {auth} {tok} {sfs} {x} {i} {ver}"
 
